@@ -21,13 +21,17 @@ Latitude (statement silent -> accepted): how far progress gets before a complete
 `progress_shortfall`), the order/monotonicity of callback fractions, explicit refusals that are raised after some steps
 (e.g. Z-HIT validates the smoothing settings inside the smoothing stage; counted per progress-step bucket), exceptions that
 the library itself catches (counted in the thorough tier through sys.monitoring, never a verdict).
+Numeric options are not only exercised at their defaults: the 'fine-grid' KK block (large / odd num_F_ext_evaluations x narrow,
+one-sided and asymmetric [min,max]_log_F_ext x rapid on/off makes the second-stage grid of the log F_ext search finer than the
+interpolation resolution) and the 'numeric' block (each numeric option at its documented extremes and odd interior values).
 Known findings (open, keyed narrowly by entry point, origin function, exception type and spectrum class): automatic KK on
 sparse spectra (<7 points or <2 points/decade, suffix ':sparse') and - for _approximate_transition_and_end_point and the
 differential-evolution wrapper - also on ordinary short spectra; 1-2 point spectra for the other entry points (suffix ':n<3');
 tr-nnls nnls iteration limit without an explicit max_iter; bht re-raising a LinAlgError when every attempt failed; lmfit's NaN
 ValueError escaping the cnls test (seen once, not reproducible).  Repaired while this check was built (their inputs stay in the
 workload, reverts are self-test mutants): nested pools for cnls, the NaN branch of _calculate_statistic, singular normal matrix in
-complex-inv, Z-HIT num_points larger than the data.  The same crash at another origin / on another class is a VIOLATION.
+complex-inv, Z-HIT num_points larger than the data, max() of an empty range in the transition heuristic, lmfit's AbortFitException
+escaping the differential-evolution search.  The same crash at another origin / on another class is a VIOLATION.
 """
 import dis
 import linecache
@@ -49,7 +53,13 @@ RULE = (
     "negative resistance, blocking capacitor, single cut-off arc) x point counts 1..30 (odd and even) x 1..10 points/decade x noise {0,1e-3,2e-2}. "
     "KK: 7 tests x admittance {False,True,None} x add_capacitance x add_inductance x num_RC {auto, valid, maximum, too large, 1} "
     "x num_F_ext_evaluations {-20,-10,0,10,11,20, |n|<10} x rapid x [min,max]_log_F_ext {(-1,1),(-0.5,1.5),(0,1),(-2,2)} x "
-    "num_procs {1,2}. Z-HIT: 6 smoothing x 5 interpolation x admittance x {custom weights, 3 named windows, auto} x "
+    "num_procs {1,2}; a 'fine-grid' block crosses unusual evaluation budgets {13,30,60,100,150,-13,-30,-100,-150} and the refused ones "
+    "{1,2,3,7,9,-1,-7,-9} with narrow / one-sided / asymmetric ranges {(-0.1,0.1),(0,0.05),(-0.05,0.15),(-0.025,0.025),(0,2)} and rapid on/off "
+    "on 8-12 point spectra (thorough also 41 points). A 'numeric' block puts every other numeric option at its documented extremes and at "
+    "unusual interior values (log_F_ext -10..10, cnls max_nfev/timeout 1, Z-HIT num_points 1..n+1, polynomial_order up to num_points-1, "
+    "num_iterations 1/10, window width 1e-6..50 and centres off the data, tr-nnls lambda 1e-10..1e12 and the -1.5 mode boundary, negative lm "
+    "orders, bht shape_coeff 0.05..100 / num_samples 1 / maximum_symmetry 0 and 1, mrq-fit gaussian_width 0.01..2 / num_per_decade 0,1,1000, "
+    "fit max_nfev 0,1,2,5 / timeout 1). Z-HIT: 6 smoothing x 5 interpolation x admittance x {custom weights, 3 named windows, auto} x "
     "(num_points, polynomial_order) cells incl. refused ones x window placement. DRT: tr-nnls modes x lambda {fixed,0,-1,-2} x "
     "max_iter; lm orders x {matrix_rank, pseudo_chisqr}; bht 9 rbf types x derivative order x shape x num_procs; mrq-fit with/"
     "without a prior fit; tr-rbf. Fit: 9 methods x 4 weights x circuits, method/weight lists, auto, pool and timeout paths. "
@@ -73,7 +83,11 @@ CNLS_MAX_NFEV = 100  # cnls fits need room to converge: starved fits (max_nfev ~
 
 KK_TESTS = ["complex", "real", "imaginary", "complex-inv", "real-inv", "imaginary-inv", "cnls"]
 KK_NFE = [-20, -10, 0, 10, 11, 20]
-KK_GRIDS = {"default": (-1.0, 1.0), "asym": (-0.5, 1.5), "zero-min": (0.0, 1.0), "wide": (-2.0, 2.0)}
+KK_GRIDS = {"default": (-1.0, 1.0), "asym": (-0.5, 1.5), "zero-min": (0.0, 1.0), "wide": (-2.0, 2.0),
+            # narrow / one-sided / asymmetric ranges (width 0.2, 0.05, 0.2 asymmetric, 0.05 centred, one-sided 2 decades)
+            "narrow": (-0.1, 0.1), "tiny-one-sided": (0.0, 0.05), "narrow-asym": (-0.05, 0.15), "tiny": (-0.025, 0.025), "one-sided-wide": (0.0, 2.0)}
+KK_NFE_FINE = [13, 30, 60, 100, 150, -13, -30, -100, -150]  # unusual but documented evaluation budgets (|n| >= 10)
+KK_NFE_REFUSED = [1, 2, 3, 7, 9, -1, -7, -9]  # 0 < |n| < 10 must be refused by the validation block
 Z_SMOOTH = ["none", "lowess", "modsinc", "savgol", "whithend", "auto"]
 Z_INTERP = ["akima", "makima", "cubic", "pchip", "auto"]
 Z_WINDOWS = ["custom", "boxcar", "hann", "triang", "auto"]
@@ -457,6 +471,8 @@ def _invoke(ep, opts, data, f):
                 o["weights"] = np.ones(max(1, n - 1), dtype=float)
             elif wk == "zeros":
                 o["weights"] = np.zeros(n, dtype=float)
+        if o.pop("center_mid", False):
+            o["center"] = float(np.log10(f).mean())
         if o.pop("center_on_data", False):
             lf = np.log10(f)
             o["center"] = float((lf.max() + lf.min()) / 2)
@@ -652,6 +668,9 @@ def known_key(ent, ep, opts, exc, d, n):
     if ent == "kk" and type(exc) is ValueError and msg.startswith("NaN values detected") and foreign.startswith("lmfit:") \
             and "_use_cnls" in d.get("funcs", []):
         return "C18/kk/cnls-lmfit-nan-valueerror"
+    if ent == "kk" and type(exc).__name__ == "AbortFitException" and foreign.startswith("lmfit:") and d["site"] == "_evaluate_log_F_ext_using_lmfit" \
+            and (ep != "kk" or int(opts.get("num_F_ext_evaluations", 20)) < 0):
+        return "C18/kk/lmfit-abortfit-after-differential-evolution"
     if ent == "bht" and type(exc).__name__ == "LinAlgError" and ("_perform_attempts" in d.get("funcs", []) or "_hilbert_transform_process" in d.get("funcs", [])):
         return "C18/bht/all-attempts-failed:LinAlgError"
     if ent == "zhit" and ep == "zhit" and type(exc) is ValueError and d["site"] == "_smooth_phase" and int(opts.get("num_points", 3)) > n:
@@ -802,6 +821,23 @@ def _kk_rows(full, rng, cnls=False):
     return rows
 
 
+def _kk_fine_rows(rng, tier):
+    """log F_ext search with fine second-stage grids: unusual evaluation budgets x narrow / one-sided ranges x rapid.
+    quick: pairwise rows (the heaviest budgets stay in; spectra are short); thorough: complete cross for every linear test."""
+    fac = {"test": KK_TESTS[:6], "adm": [False, True], "C": [True, False], "L": [True], "numrc": ["auto"],
+           "nfe": [13, 30, 60, 100, -30, -100] if tier == "quick" else KK_NFE_FINE,  # 150 and -150 only in thorough (cost)
+           "rapid": [True, False], "grid": ["default", "narrow", "tiny-one-sided", "narrow-asym", "tiny"] + ([] if tier == "quick" else ["one-sided-wide", "asym"]),
+           "np": [1, 2]}
+    if tier == "quick":
+        rows = pairwise(fac, rng)
+    else:
+        rows = cross(dict(fac, adm=[False], C=[True], np=[1])) + pairwise(fac, rng)
+    # refusal cells: 0 < |num_F_ext_evaluations| < 10 on every range
+    rows += pairwise({"test": ["complex", "real-inv"], "adm": [False, None], "C": [True], "L": [True], "numrc": ["auto"], "nfe": KK_NFE_REFUSED,
+                      "rapid": [True, False], "grid": ["default", "narrow", "tiny-one-sided"], "np": [1]}, rng)
+    return rows
+
+
 def _zhit_models(full):
     if full:
         return [{"smoothing": Z_SMOOTH, "interpolation": Z_INTERP, "adm": [False, True], "window": ["custom", "boxcar", "hann", "auto"],
@@ -873,6 +909,47 @@ def _fit_calls(rng, tier, cdcs):
     return calls
 
 
+def _numeric_extremes(n):
+    """Documented numeric options at their extremes and at unusual interior values: {entry point: [(options, cost)]}."""
+    kk = []
+    for lfe in (-2.0, 3.0, 1e-9, -10.0, 10.0):
+        kk.append(({"test": "complex", "num_RC": max(2, n // 2), "num_F_ext_evaluations": 0, "log_F_ext": lfe, "admittance": False, "num_procs": 1}, 0.05))
+        kk.append(({"test": "real-inv", "num_F_ext_evaluations": 0, "log_F_ext": lfe, "num_procs": 1}, 0.3))
+    for mn, to in ((1, 60), (5, 60), (0, 1), (100, 1)):
+        kk.append(({"test": "cnls", "num_RC": max(2, n // 2), "num_F_ext_evaluations": 0, "admittance": False, "max_nfev": mn, "timeout": to, "num_procs": 2}, 0.6))
+    zh = []
+    for kw in ({"num_points": n, "polynomial_order": 2, "smoothing": "savgol"}, {"num_points": n, "polynomial_order": n - 1, "smoothing": "savgol"},
+               {"num_points": n, "polynomial_order": 2, "smoothing": "whithend"}, {"num_points": n - 1, "polynomial_order": n - 2, "smoothing": "whithend"},
+               {"num_points": n, "smoothing": "lowess", "num_iterations": 10}, {"num_points": 1, "smoothing": "lowess"},
+               {"num_points": 2, "smoothing": "lowess", "num_iterations": 1}, {"num_points": n, "polynomial_order": 2, "smoothing": "modsinc"},
+               {"num_points": 5, "polynomial_order": 10, "smoothing": "modsinc"}, {"num_points": n, "polynomial_order": 10, "smoothing": "modsinc"},
+               {"num_points": 2, "polynomial_order": 2, "smoothing": "modsinc"}, {"num_points": 1, "polynomial_order": 2, "smoothing": "modsinc"},
+               {"num_points": n, "polynomial_order": 4, "smoothing": "auto"}, {"num_points": n + 1, "polynomial_order": 2, "smoothing": "auto"},
+               {"width": 0.01, "center_mid": True}, {"width": 50.0, "center_mid": True}, {"center": -5.0}, {"center": 3.0, "width": 1e-6},
+               {"window": "boxcar", "width": 0.3, "center_mid": True}, {"window": "hann", "width": 0.7, "center_mid": True},
+               {"window": "auto", "width": 0.2, "center_mid": True}):
+        o = dict(kw, num_procs=1)
+        if "center" not in o and "width" not in o:
+            o["center_on_data"] = True
+        zh.append((o, 0.4))
+    dr = []
+    for lv in (1e-10, 1.0, 1e3, 1e12, -1.5, -1.5000001, -1e9):
+        dr.append(({"method": "tr-nnls", "lambda_value": lv, "max_iter": 100000}, 0.05))
+    dr.append(({"method": "tr-nnls", "lambda_value": 1e-3, "max_iter": 0}, 0.05))
+    for mo in (-1, -5):
+        dr.append(({"method": "lm", "model_order": mo, "num_procs": 1}, 0.05))
+    for kw in ({"shape_coeff": 0.05}, {"shape_coeff": 5.0}, {"num_samples": 1}, {"maximum_symmetry": 0.0}, {"maximum_symmetry": 1.0}, {"shape_coeff": 0.0},
+               {"maximum_symmetry": 1.5}, {"num_attempts": 0}, {"derivative_order": 3}, {"rbf_shape": "factor", "shape_coeff": 100.0}):
+        dr.append((dict({"method": "bht", "num_samples": 200, "num_attempts": 3, "num_procs": 1}, **kw), 1.5))
+    for kw in ({"gaussian_width": 0.01}, {"gaussian_width": 2.0}, {"num_per_decade": 1}, {"num_per_decade": 0}, {"num_per_decade": 1000}):
+        dr.append((dict({"method": "mrq-fit", "cdc": "R(RQ)", "prefit": True, "num_procs": 1}, **kw), 1.0))
+    ft = []
+    for kw in ({"max_nfev": 1}, {"max_nfev": 5}, {"max_nfev": 0}, {"timeout": 1, "max_nfev": 50}, {"method": "nelder", "max_nfev": 1}, {"method": "powell", "max_nfev": 2},
+               {"method": ["leastsq", "slsqp"], "max_nfev": 1}):
+        ft.append((dict({"cdc": "R(RC)", "method": "leastsq", "weight": "boukamp", "num_procs": 1}, **kw), 0.3))
+    return {"kk": kk, "zhit": zh, "drt": dr, "fit": ft}
+
+
 MINSIZE_CONFIGS = [
     ("kk", {"num_procs": 1}, "kk:default"),
     ("kk", {"test": "complex", "num_F_ext_evaluations": 0, "num_procs": 1}, "kk:complex,auto num_RC,fixed F_ext"),
@@ -925,6 +1002,17 @@ def gen_cases(tier, seed):
     calls = [kk_opts(r, sp["n"]) for r in rows]
     costs = [kk_cost(o, sp["n"]) for o in calls]
     cases += _pack("kk", sp, calls, costs, budget, "kk:direct-exhaustive")
+    # fine second-stage grids of the log F_ext search (short spectra keep 100-150 evaluations cheap)
+    fine_specs = [_spec(rng, 8, ppd=int(rng.choice([2, 3])))] if quick else \
+        [_spec(rng, 9, ppd=3), _spec(rng, 12, ppd=3, fam="rl"), _spec(rng, 41, ppd=8, fam="rq2", noise=2e-2)]
+    for k, sp in enumerate(fine_specs):
+        rows = _kk_fine_rows(rng, tier if k == 0 else "quick")
+        if sp["n"] > 20:
+            rows = [r for r in rows if abs(r["nfe"]) >= 10][::3]
+        calls = [kk_opts(r, sp["n"]) for r in rows]
+        costs = [0.01 if abs(o["num_F_ext_evaluations"]) < 10 else (0.15 + abs(o["num_F_ext_evaluations"]) / 120.0) * (sp["n"] / 9.0) ** 2 for o in calls]
+        order = np.argsort(rng.random(len(calls)))
+        cases += _pack("kk", sp, [calls[i] for i in order], [costs[i] for i in order], budget, "kk:fine-grid")
     # cnls runs its own pool per test and is ~50x slower: same models on a 7-point (2 points/decade) spectrum
     sp = _spec(rng, 7, ppd=2, fam=str(rng.choice(["rq2", "rc", "rcw"])))
     rows = _kk_rows(not quick, rng, cnls=True)
@@ -1020,12 +1108,25 @@ def gen_cases(tier, seed):
         fc = _fit_calls(rng, tier, cdcs)
         cases += _pack("fit", sp, [c for c, _ in fc], [x for _, x in fc], budget, "fit:cells")
 
+    # --- numeric options at their extremes / unusual interior values (all entry points)
+    for k, nn in enumerate([int(rng.choice([9, 10, 11, 12]))] if quick else [9, 12, 20]):
+        sp = _spec(rng, nn, ppd=3, fam=["rq2", "rcw", "rl"][k % 3])
+        for ep, lst in _numeric_extremes(nn).items():
+            cases += _pack(ep, sp, [c for c, _ in lst], [x for _, x in lst], budget, "numeric:" + ep)
+
     # --- smallest accepted spectrum per entry point
     for ci, (ep, opts, label) in enumerate(MINSIZE_CONFIGS):
         cases.append({"kind": "minsize", "ep": ep, "opts": opts, "label": label, "seed": [int(seed), 18, 1000 + ci], "cost": 6.0, "tag": "minsize"})
 
+    # input of the repaired lmfit AbortFitException escape (differential evolution stopping exactly at max_nfev); needs the global seed
+    f8 = [1e5, 31622.776601683792, 1e4, 3162.2776601683795, 1e3, 316.2277660168379, 100.0, 31.622776601683793]
+    z8 = [[10.113654, -16.235479], [23.475579, -34.161603], [57.11541, -61.894098], [121.042881, -80.945787], [188.467161, -68.49717],
+          [230.10726, -44.034584], [252.302531, -24.895395], [262.671933, -12.292138]]
+    for rs in (0, 1):
+        cases.append({"kind": "explicit", "ep": "kk", "opts": {"test": "real-inv", "num_F_ext_evaluations": -100, "admittance": False, "num_procs": 1},
+                      "f": f8, "Z": z8, "rseed": rs, "cost": 0.7, "tag": "kk:regress"})
     for k, c in enumerate(cases):
-        c["rseed"] = int(seed) * 100000 + k
+        c.setdefault("rseed", int(seed) * 100000 + k)
     cases.sort(key=lambda c: -c.get("cost", 1.0))
     return cases
 
